@@ -579,6 +579,15 @@ def _scalar_from_json(proto_type: str, value: Any, enum_class: Any = None) -> An
     return value
 
 
+def _map_key_from_json(proto_type: str, key: Any) -> Any:
+    """JSON object keys are strings: convert them back to the declared key type."""
+    if not isinstance(key, str) or proto_type == TYPE_STRING:
+        return key
+    if proto_type == TYPE_BOOL:
+        return key == "true"
+    return int(key)
+
+
 def _dump_float(value: float) -> Union[float, str]:
     """Dump the given float to JSON
 
@@ -1625,10 +1634,20 @@ class Message(ABC):
                 ):
                     output[cased_name] = value.to_dict(casing, include_default_values)
             elif meta.proto_type == TYPE_MAP:
+                assert meta.map_types
+                value_cls = self._betterproto.cls_by_field[f"{field_name}.value"]
                 output_map = {**value}
                 for k in value:
                     if hasattr(value[k], "to_dict"):
                         output_map[k] = value[k].to_dict(casing, include_default_values)
+                    elif isinstance(value[k], datetime):
+                        output_map[k] = _Timestamp.timestamp_to_json(value[k])
+                    elif isinstance(value[k], timedelta):
+                        output_map[k] = _Duration.delta_to_json(value[k])
+                    else:
+                        output_map[k] = _scalar_to_json(
+                            meta.map_types[1], value[k], value_cls
+                        )
 
                 if value or include_default_values:
                     output[cased_name] = output_map
@@ -1726,9 +1745,21 @@ class Message(ABC):
                         if isinstance(value, list)
                         else _scalar_from_json(meta.wraps, value)
                     )
-            elif meta.map_types and meta.map_types[1] == TYPE_MESSAGE:
+            elif meta.map_types:
+                key_type, value_type = meta.map_types
                 sub_cls = cls._betterproto.cls_by_field[f"{field_name}.value"]
-                value = {k: sub_cls.from_dict(v) for k, v in value.items()}
+                if value_type != TYPE_MESSAGE:
+                    convert = lambda v: _scalar_from_json(value_type, v, sub_cls)  # noqa: E731
+                elif sub_cls == datetime:
+                    convert = isoparse
+                elif sub_cls == timedelta:
+                    convert = _Duration.delta_from_json
+                else:
+                    convert = sub_cls.from_dict
+                value = {
+                    _map_key_from_json(key_type, k): convert(v)
+                    for k, v in value.items()
+                }
             else:
                 if meta.proto_type in INT_64_TYPES:
                     value = (
